@@ -29,6 +29,10 @@ extern void *mpt_queue_find(const MPT_STRUCT(queue) *queue, size_t esz, int (*cm
 		errno = EFAULT;
 		return 0;
 	}
+	if (!esz) {
+		errno = EINVAL;
+		return 0;
+	}
 	
 	addr = queue->base;
 	
